@@ -3,7 +3,7 @@
 (*                                                                           *)
 (*   rts    : runtime id -> abstract runtime (the whole ES5Core state: heap,  *)
 (*            environments, ...).  A runtime is a VALUE.                      *)
-(*   hist   : the actions so far            (hidden by VIEW)                  *)
+(*   hist   : the actions so far   (hidden by VIEW, except for its length)    *)
 (*   last   : the reply to the last action  (hidden by VIEW)                  *)
 (*                                                                           *)
 (* Actions (one per public entry point, otto.go / script.go), as records:     *)
@@ -40,6 +40,11 @@
 (*                   record); as an invariant over `last` and, because `last` *)
 (*                   is hidden by the VIEW, also as an action property        *)
 (*                   (TotalRepliesStep) that TLC evaluates on every edge      *)
+(* "The non-eval routes are the same transition" is NOT stated as a property: *)
+(* Effect does not look at the route (except = "eval"), so in the model it is *)
+(* a tautology.  Its content is on the implementation side: the replay        *)
+(* requires the same observation, and through later steps the same successor  *)
+(* state, for all four non-eval routes.                                       *)
 EXTENDS Integers, Sequences, TLC, Json, FiniteSets, OttoAPIProgs
 CONSTANTS MaxRT,        \* runtimes
           MaxLen,       \* length of a history
@@ -138,7 +143,11 @@ Next == /\ Len(hist) < MaxLen
         /\ \E a \in Acts : Step(a)
 
 vars == <<rts, hist, last>>
-View == rts
+(* The history and the reply are hidden; the LENGTH of the history is not: Acts and the bound    *)
+(* MaxLen depend on it, and parallel breadth-first search does not always find a state by a      *)
+(* shortest path first.  With the length in the view the explored graph is the same in every     *)
+(* run: every history of at most MaxLen actions, up to equality of the runtimes at equal length. *)
+View == <<rts, Len(hist)>>
 
 -----------------------------------------------------------------------------
 LastAct == hist'[Len(hist')]
